@@ -12,7 +12,7 @@ META = {
              'the window is not the whole range or the source is permuted / has extra datasets'),
     'required_obs': {'quick': ['cmp-dict', 'cmp-struct', 'cmp-hdf5', 'cmp-inline-window', 'window-dict', 'window-struct',
                                'window-hdf5', 'window-inline', 'permuted', 'extra-datasets', 'mapping', 'open-ended',
-                               'frames-decoded']},
+                               'frames-decoded', 'fastpath-permuted', 'fastpath-aligned', 'fastpath-view', 'fastpath-packed']},
     'exhaustive_windows': {'quick': ['all windows 0 <= from < to <= N for N = 4, every source kind'],
                            'thorough': ['all windows 0 <= from < to <= N for N in 1..6, every source kind x input chunk {None,1,2}']},
     'assumptions': ['origins carry explicit file_set_number and creation_time so that nothing random enters the bytes'],
@@ -30,6 +30,8 @@ def cases(tier, seed):
             i += 1
     for k in range(160 if tier == 'quick' else 5000):
         yield {'stratum': 'random', 'index': k, 'kind': 'random'}
+    for k in range(100 if tier == 'quick' else 3000):
+        yield {'stratum': 'struct-fastpath', 'index': k, 'kind': 'fastpath'}
 
 
 def presliced(sp, a, b):
@@ -105,6 +107,29 @@ def run_case(case):
                             f'{src}:w{a}-{b}:{case["ics"]}', not whole, decode=(src != 'inline' or not whole))
         sample = {'kind': 'all windows', 'N': N, 'channels': [(o['name'], o['data']['dtype'], o['data']['shape'])
                                                                for o in base['ops'] if o['op'] == 'channel']}
+    elif case['kind'] == 'fastpath':
+        r = gen.rng(seed, PROP, case['stratum'], case['index'])
+        base = gen.fastpath_spec(r)
+        N = [o for o in base['ops'] if o['op'] == 'channel'][0]['data']['shape'][0]
+        wsave = dict(base['write'])
+        base['write'] = {'source': 'inline', 'output_chunk_size': 2 ** 16}
+        ref = run(base)
+        sp = copy.deepcopy(base)
+        sp['write'].update({'source': 'struct', 'perm_seed': wsave.get('perm_seed'), 'extra': 0,
+                            'struct_variant': wsave.get('struct_variant'), 'input_chunk_size': r.choice(gen.chunk_choices(N))})
+        bump('fastpath-' + (wsave.get('struct_variant') or 'packed'))
+        if wsave.get('perm_seed') is not None:
+            bump('fastpath-permuted')
+        compare(ref, sp, 'struct', f"fast:{wsave.get('struct_variant')}:{wsave.get('perm_seed') is not None}", True, decode=True)
+        if N > 1:
+            a = r.randrange(0, N)
+            b = r.choice([r.randrange(a + 1, N + 1), None])
+            refw = run(presliced(base, a, b))
+            spw = copy.deepcopy(sp)
+            spw['write'].update({'from_idx': a, 'to_idx': b})
+            bump('window-struct')
+            compare(refw, spw, 'struct:window', f"fast-window:{wsave.get('struct_variant')}", True, decode=True)
+        sample = {'kind': 'struct fast path', 'rows': N, 'variant': wsave.get('struct_variant'), 'permuted': wsave.get('perm_seed') is not None}
     else:
         r = gen.rng(seed, PROP, case['stratum'], case['index'])
         base = gen.frame_spec(r, sources=('inline',), nframes=r.choice([1, 1, 2]), casts=r.random() < 0.2,
